@@ -1603,11 +1603,6 @@ impl<'a> Evaluator<'a> {
                     RVal::List(ms) => ms,
                     _ => return self.nj(),
                 };
-                if let Some(DocVal::Arr(_)) = v {
-                    // quantified list against an array field: documentation and engine disagree
-                    // on whether one element has to satisfy all members
-                    return self.njr("quantified key list on array field");
-                }
                 let ops: Vec<RSet> =
                     ms.iter().map(|m| self.eval_member(&KeyMod::None, m, v, true)).collect();
                 if self.opts.engine_exact {
